@@ -42,11 +42,42 @@ func Par(g *G, nprog int) []Program {
 			g.Emit(M{"op": "Quo", "z": "r1", "x": regs[2], "y": "r1"})
 			g.Emit(M{"op": "SetPrec", "z": "r1", "p": 130})
 		}
+		observers := p%8 == 7 // goroutines that only read: formatting with an explicit precision, conversions, comparisons
+		if observers {
+			// r0: an integer whose digits fill its mantissa words exactly (the conversions need no shift and may be tempted
+			// to work on the operand itself); r1: a long value at the top of the exponent range (formatting rounds a copy
+			// one decade lower there)
+			g.Load("r0", g.Bool(), g.Digits(g.Pick(38, 57, 76)), 0, 0, g.Mode())
+			g.Emit(M{"op": "SetMantExp", "z": "r0", "x": "r0", "e": strconv.Itoa(g.Pick(38, 57, 76))})
+			g.Load("r1", g.Bool(), g.Digits(g.Pick(200, 2000)), 2147483647, 0, g.Mode())
+		}
 		var gs []any
 		for i := 0; i < k; i++ {
 			z := regs[2+i]
 			var steps []any
 			ns := 3 + g.R.Intn(4)
+			if observers {
+				for j := 0; j < ns+3; j++ {
+					switch g.R.Intn(9) {
+					case 0, 1:
+						steps = append(steps, M{"op": "Int", "x": "r0", "into": ""})
+					case 2:
+						steps = append(steps, M{"op": g.PickS("Int64", "Float64", "IsInt", "GobEncode"), "x": "r0"})
+					case 3:
+						steps = append(steps, M{"op": "Text", "x": "r0", "fmt": "f", "prec": g.Pick(0, -1)})
+					case 4, 5:
+						steps = append(steps, M{"op": "Text", "x": "r1", "fmt": g.PickS("e", "g", "E"), "prec": g.Pick(5, 1, 30)})
+					case 6:
+						steps = append(steps, M{"op": "Cmp", "x": g.PickS("r0", "r1"), "y": g.PickS("r0", "r1")})
+					case 7:
+						steps = append(steps, M{"op": "MantExp", "x": "r1", "z": "nil"})
+					default:
+						steps = append(steps, M{"op": "Add", "z": z, "x": "r0", "y": "r0"})
+					}
+				}
+				gs = append(gs, steps)
+				continue
+			}
 			if p%4 == 2 { // every goroutine formats and adds the operand with zero low words
 				steps = append(steps, M{"op": "Text", "x": "r1", "fmt": g.PickS("e", "f", "g"), "prec": -1}, M{"op": "Add", "z": z, "x": "r0", "y": "r1"})
 			}
